@@ -105,6 +105,21 @@ parameter read from the code's settings on every run), then `_set_initial_funds`
 def create (supported : List String) (cur : String) (t : Int) (funds : α) (fee : FeeModel α) : Except Err (Broker α) :=
   if supported.contains cur then new t funds fee else .error .value
 
+/-- `_set_initial_funds` -/
+def checkFunds (funds : α) : Except Err α := if lt funds zero then .error .value else .ok funds
+
+/-- `_set_base_currency` -/
+def checkCurrency (supported : List String) (cur : String) : Except Err String :=
+  if supported.contains cur then .ok cur else .error .value
+
+/-- what `subscribe_funds_to_account(amount)` does to the master balance -/
+def subscribeAccountMaster (master amount : α) : Except Err α :=
+  if lt amount zero then .error .value else .ok (master + amount)
+
+/-- what `withdraw_funds_from_account(amount)` does to the master balance -/
+def withdrawAccountMaster (master amount : α) : Except Err α :=
+  if lt amount zero then .error .value else if lt master amount then .error .value else .ok (master - amount)
+
 /-- `get_account_cash_balance(currency)`: one balance per supported currency, all zero but the base currency's -/
 def accountCash (b : Broker α) (supported : List String) (base cur : String) : Except Err α :=
   if supported.contains cur then .ok (if cur == base then b.master else zero) else .error .value
